@@ -4,8 +4,7 @@ CONSTANTS
   Readers = {r1, r2}
   MaxWrites = 4
   MaxCkpt = 4
-  MaxReaderStarts = 4
-  ReaderPoints = {"idle", "sqlite"}
+  ReaderPoints = {"idle"}
   CanonicalPages = TRUE
   DisarmOnTruncate = TRUE
   ArmOnAllMoved = TRUE
@@ -14,4 +13,5 @@ CONSTANTS
   CancelOnError = TRUE
   BusyKeepsState = TRUE
 SYMMETRY ReaderSym
+VIEW MCView
 INVARIANTS RebuildOK NoSegmentAfterFailure ResetDetected NoSpuriousReset NoRecapture ArmedSane SegWellFormed TypeOK
